@@ -307,6 +307,18 @@ Proof.
   destruct (plb_fd (pc_p c)) as [sig|]; [|exact I]. apply Bool.eqb_prop in Hp. exact Hp.
 Qed.
 
+(* the statement for either form of getfd, and its truth value as a function of the form *)
+Definition plb_conc_level (gfix : bool) : Prop :=
+  forall l, Forall (fun a => In a acts_all) l ->
+  let c := plb_arun gfix plc_init l in
+  plc_quiescent c -> match plb_fd (pc_p c) with None => True | Some sig => sig = plb_raised (pc_p c) end.
+Theorem plb_conc_level_by_form (gfix : bool) : if gfix then plb_conc_level true else ~ plb_conc_level false.
+Proof.
+  destruct gfix; [exact plb_concurrent_holds_when_fixed|].
+  intros H. destruct plb_concurrent_clear_refuted as (l & Hl & W). cbv zeta in W. destruct W as (Q & R & F & _).
+  unfold plb_conc_level in H. specialize (H l Hl). cbv zeta in H. specialize (H Q). rewrite F, R in H. discriminate.
+Qed.
+
 (* without overlap (every call runs to completion before the next begins) the interleaving model is the sequential one *)
 Definition seq_acts (o : plop) : list plact :=
   match o with
